@@ -110,9 +110,9 @@ def premise_rules(module_name, names):
 def movegen_premises(extra_c01=()):
     """What "a legal move" rests on, for every property whose statement uses the notion (C08, C09, C12, C14): the legality
     filter and its probe, the generators' tables and operators (C01) and the attack tables underneath (C06)."""
-    c01 = ["filter", "probe", "square-arith", "leaf-accessors", "pawn-table", "castle-pre", "castle-masks", "castle-moves", "dispatch", "capture-src", "ply-builder"]
+    c01 = ["filter", "probe", "square-arith", "leaf-accessors", "pawn-table", "generators", "castle-pre", "castle-masks", "castle-moves", "dispatch", "capture-src", "ply-builder"]
     c01 += [r for r in extra_c01 if r not in c01]
-    return premise_rules("c01", c01) + premise_rules("c06", ["bitboard-ops", "rays", "magic", "scheme", "mask-edges", "ray-walk", "leapers", "subset-enum"])
+    return premise_rules("c01", c01) + premise_rules("c06", ["bitboard-ops", "rays", "magic", "scheme", "mask-edges", "ray-walk", "leapers", "subset-enum", "bit-iteration"])
 
 
 def run_selftest(prop):
